@@ -17,6 +17,7 @@ import Rox.Lemmas.CompleteTables
 import Rox.Lemmas.CompleteExample
 import Rox.Lemmas.Emits
 import Rox.Props.C01
+import Rox.Props.C16Base
 
 namespace Rox.Props.C03
 open Rox Rox.Spec Rox.Lemmas Rox.TM
@@ -309,6 +310,31 @@ theorem accepted_tree_mirrors (txt : Bytes) (hv : ValidUtf8 txt) (opt : Opt)
           Rox.Spec.Canon4.expectAllY 0 1 (Rox.Spec.Mirror.docTree x) :=
   Rox.Lemmas.accepted_tree_mirrors Generated.tables C01.generated_tables_ok
     Rox.Lemmas.generated_tables_grammar txt hv opt hdtd d h
+
+/-- **The same under `allow_dtd = true`, for every input without a DOCTYPE** (an input has no DOCTYPE in
+the sense of the code exactly when the default configuration does not refuse it with `DtdDetected`):
+whatever the flag, an accepted input that the default configuration does not refuse with
+`DtdDetected` is the concrete syntax of a well-formed abstract document whose tree the arena mirrors
+— `accepted_tree_mirrors` transported along `C16.dichotomy` (the flag changes nothing else). -/
+theorem accepted_tree_mirrors_any_flag (txt : Bytes) (hv : ValidUtf8 txt) (opt : Opt) (d : Doc)
+    (h : parse Generated.tables txt opt = .ok d)
+    (hnd : parse Generated.tables txt { opt with allowDtd := false } ≠ .err .dtdDetected) :
+    ∃ x : Rox.Spec.Grammar.GDoc, Rox.Spec.Grammar.GDocWf Generated.tables x ∧
+      Rox.Spec.Mirror.DocNormal Generated.tables x ∧ Rox.Spec.Grammar.RDoc Generated.tables x txt ∧
+      d.nodes.toList.map (Rox.Spec.Mirror.viewM d) =
+        (none, Rox.Spec.Canon4.YKind.root) ::
+          Rox.Spec.Canon4.expectAllY 0 1 (Rox.Spec.Mirror.docTree x) := by
+  have hf : parse Generated.tables txt { opt with allowDtd := false } = .ok d := by
+    rcases C16.dichotomy Generated.tables txt opt with h1 | h2
+    · exact absurd h1 hnd
+    · cases hb : opt.allowDtd with
+      | false =>
+        have : ({ opt with allowDtd := false } : Opt) = opt := by cases opt; simp_all
+        rw [this]; exact h
+      | true =>
+        have : ({ opt with allowDtd := true } : Opt) = opt := by cases opt; simp_all
+        rw [h2, this]; exact h
+  exact accepted_tree_mirrors txt hv { opt with allowDtd := false } rfl d hf
 
 /-- **Every well-formed document is accepted** (completeness: every abstract document `x` that is
 well-formed — `Rox.Spec.Grammar.GDocWf` —, whose PI targets are not reserved, that satisfies the
